@@ -103,3 +103,165 @@ def m_start(ev, state, node, recv, ref):
 @method('Proc', 'join')
 def m_join(ev, state, node, recv, ref):
     return NONEVAL
+
+
+# ---------------------------------------------------------------------------------------------
+# scratch space (A-TMP), log and taint ghost state used by the run_mapping slices (C14.c, C19.a, C20.a)
+# ---------------------------------------------------------------------------------------------
+from .values import set_remove, empty_set, literal  # noqa: E402
+from .engine import TRUTHY  # noqa: E402
+
+SANITIZED = z3.Function('sanitized', T.OpaqueSort, z3.BoolSort())
+SUCCESS_LINE = "MAPPING FROM SPECIFIED MARKERS RAN SUCCESSFULLY"
+
+
+def _ghost_get(state, name):
+    ref = state.env.get(name)
+    return (ref, read_ref(state, ref)) if ref is not None else (None, None)
+
+
+def _as_opt_name(ev, state, node):
+    v = ev.eval(state, node)
+    return v
+
+
+@qualified('tempfile.mkdtemp')
+def q_mkdtemp(ev, state, node):
+    """a fresh directory: its name is not live and was never handed out before (A-TMP)"""
+    for k in node.keywords:
+        try:
+            ev.eval(state, k.value)
+        except Unsupported:
+            if not ev.ctx.lenient:
+                raise
+    n = fresh(T.NAME, 'tmpdir')
+    ref, live = _ghost_get(state, 'live')
+    if ref is not None:
+        state.assume(z3.Not(set_has(live)[n.term]))
+        write_ref(state, ref, set_add(live, n.term))
+    return n
+
+
+@qualified('cell_type_mapper.utils.utils._clean_up')
+def q_clean_up(ev, state, node):
+    """removes the path and everything under it; None is a no-op"""
+    v = ev.eval(state, node.args[0] if node.args else node.keywords[0].value)
+    ref, live = _ghost_get(state, 'live')
+    if ref is None:
+        return NONEVAL
+    if v.ty == T.NONE:
+        return NONEVAL
+    if v.ty == T.NAME:
+        write_ref(state, ref, set_remove(live, v.term))
+        return NONEVAL
+    if v.ty == T.TOpt(T.NAME):
+        inner = T.acc(v.ty, 'val')(v.term)
+        removed = set_remove(live, inner)
+        isn = T.opt_is_none(v.ty, v.term)
+        write_ref(state, ref, SymVal(live.ty, z3.If(isn, live.term, removed.term)))
+        return NONEVAL
+    raise Unsupported(f"_clean_up of {T.show(v.ty)}")
+
+
+@spec_function('sanitized', native=None)
+def s_sanitized(ev, state, node):
+    v = ev.eval(state, node.args[0])
+    if v.ty != T.OPAQUE:
+        raise Unsupported("sanitized() of a non-opaque value")
+    return SymVal(T.BOOL, SANITIZED(v.term))
+
+
+@qualified('cell_type_mapper.utils.cloud_utils.sanitize_paths')
+def q_sanitize_paths(ev, state, node):
+    """trusted contract of the sanitiser (its body is checked in the bounded layer, C20.c)"""
+    ev.eval(state, node.args[0])
+    r = fresh(T.OPAQUE, 'sanitized')
+    state.assume(SANITIZED(r.term))
+    return r
+
+
+def _declare_log():
+    if 'Log' not in T.RECORDS:
+        T.record('Log', log='Opaque')
+
+
+@qualified('cell_type_mapper.cli.cli_log.CommandLog')
+def q_command_log(ev, state, node):
+    _declare_log()
+    return fresh(T.TRec('Log'), 'log')
+
+
+def _bump(state, name):
+    ref, v = _ghost_get(state, name)
+    if ref is not None:
+        write_ref(state, ref, SymVal(T.INT, v.term + 1))
+
+
+def _log_msg(which):
+    def h(ev, state, node, recv, ref):
+        # every message is appended to log.log (a fresh, unsanitised value)
+        is_success = False
+        if node.args and isinstance(node.args[0], ast.Constant) and node.args[0].value == SUCCESS_LINE:
+            is_success = True
+        else:
+            for a in node.args:
+                try:
+                    ev.eval(state, a)
+                except Unsupported:
+                    if not ev.ctx.lenient:
+                        raise
+        if is_success:
+            _bump(state, 'success_logged')
+        if ref is not None:
+            nv = fresh(T.TRec('Log'), 'log')
+            write_ref(state, ref, nv)
+        return NONEVAL
+    return h
+
+
+for _m in ('info', 'warn', 'add_msg', 'benchmark', 'env', 'log_software_env'):
+    method('Log', _m)(_log_msg(_m))
+
+
+@method('Log', 'write_log')
+def m_write_log(ev, state, node, recv, ref):
+    """log file written; it is sanitised exactly when the cloud_safe argument is truthy"""
+    cs = None
+    for k in node.keywords:
+        if k.arg == 'cloud_safe':
+            cs = ev.eval(state, k.value)
+    if len(node.args) >= 2:
+        cs = ev.eval(state, node.args[1])
+    _bump(state, 'log_written')
+    ref_f, v = _ghost_get(state, 'log_file_safe')
+    if ref_f is not None:
+        from .engine import truth as _truth
+        t = _truth(cs) if cs is not None else z3.BoolVal(False)
+        write_ref(state, ref_f, SymVal(T.BOOL, t))
+    return NONEVAL
+
+
+@qualified('cell_type_mapper.cli.from_specified_markers._run_mapping')
+def q__run_mapping(ev, state, node):
+    """trusted view of the mapping proper from its caller: it may raise; when it returns, the blob
+    holds the result records (its own clauses are proved / bounded under C01, C14.b, C15)"""
+    from .symexec import PendingRaise
+    from .values import dict_dom, wf as _wf
+    for k in node.keywords:
+        try:
+            ev.eval(state, k.value)
+        except Unsupported:
+            if not ev.ctx.lenient:
+                raise
+    b = z3.Bool(fresh_name('run_mapping_raised'))
+    ev.ctx.pending.append(PendingRaise('Exception', [b],
+                                       on_raise=lambda st: _bump(st, 'mapping_called')))
+    _bump(state, 'mapping_called')
+    state.assume(z3.Not(b))
+    ty = T.TDict(T.NAME, T.OPAQUE)
+    r = fresh(ty, 'mapping_output')
+    state.assume(*_wf(r))
+    for key in ('results', 'marker_genes', 'taxonomy_tree', 'n_unmapped_genes'):
+        state.assume(dict_dom(r)[literal(key).term])
+    _bump(state, 'mapping_returned')
+    return r
